@@ -1032,10 +1032,11 @@ class TriangularFactoredDefiniteMatrix(
         super().__init__(factor.shape[0], sign=sign)
 
     def _scalar_multiply(self, scalar: ScalarLike) -> TriangularFactoredDefiniteMatrix:
-        return TriangularFactoredDefiniteMatrix(
-            factor=abs(scalar) ** 0.5 * self.factor,
-            sign=self.sign * np.sign(scalar),
-        )
+        factor = abs(scalar) ** 0.5 * self.factor
+        sign = self.sign * np.sign(scalar)
+        if sign == 1:
+            return TriangularFactoredPositiveDefiniteMatrix(factor=factor)
+        return TriangularFactoredDefiniteMatrix(factor=factor, sign=sign)
 
     def _left_matrix_multiply(self, other: NDArray) -> NDArray:
         return self.sign * (self.factor @ (self.factor.T @ other))
